@@ -13,13 +13,16 @@ def project(log, sc, tid):
         if k == "run_begin":
             ev.append({"ev": "run_begin", "t": t, "run": e["run"], "interval": e["interval"], "timeout": e["timeout"],
                        "timeoutGiven": runkw.get("ping_timeout") is not None, "reconnect": e["reconnect"], "cbs": e["cbs"],
-                       "dispatcher": e["dispatcher"], "payload": payload, "jitter": int(sc.get("send_delay_ms") or 0)})
+                       "dispatcher": e["dispatcher"], "payload": payload, "jitter": int(sc.get("send_delay_ms") or 0),
+                       "skipUtf8": bool(runkw.get("skip_utf8_validation"))})
         elif k == "dial":
             ev.append({"ev": "dial", "t": t, "cid": e["cid"], "outcome": e["outcome"]})
         elif k == "srv":
             x = {"ev": "srv", "t": t, "cid": e["cid"], "kind": e["kind"], "data": e.get("data", []), "op": e.get("op", 0),
                  "hasBody": e.get("hasBody", False), "status": e.get("status", 0), "reason": e.get("reason", [])}
             ev.append(x)
+        elif k == "cb" and e["name"] == "cont_message":
+            pass        # on_cont_message is outside the listed callbacks: recorded, not judged
         elif k == "cb":
             arg = e.get("arg", {"type": "none", "data": []})
             ev.append({"ev": "cb", "t": t, "name": e["name"], "cid": e.get("cid", -1), "arg": arg, "dtype": e.get("dtype", -1),
